@@ -27,7 +27,8 @@ RULE = ("Fault points are enumerated from clean traced runs: for each of a seede
         "exception reaches the caller multiprocessing.active_children() holds no process that was not there before; a "
         "following clean call returns bitwise the clean result. A shared counter proves the fault fired. Non-trivial = the "
         "fault fired in a round >= 1 or under a multi-worker pool; distinct by SHA-1 of (configuration, fault point)."
-        ' Donor shortage also with a starved cluster of exactly one point.')
+        ' Donor shortage also with a starved cluster of exactly one point.'
+        " Process state (NumPy error handling, the library's environment switches, signal handlers, cwd, the library's logger, multiprocessing.Pool) is compared before and after every fault case.")
 ASSUMPTIONS = ["faults are injected by substituting module attributes the library looks up at call time; workers inherit the substitute by fork",
                "only standard picklable exception types are injected (an exception that cannot be unpickled hangs multiprocessing itself)",
                "the harness controls which task fails, not the OS schedule of the other tasks"]
@@ -249,7 +250,30 @@ def _check_clean_after(cfg, ref, workers, timeout, what):
         raise Violation(f"the clean call following {what} returned a different result than a clean call in a fresh state")
 
 
+def _process_state():
+    """What a failed call must leave as it found it, beyond the library's own caches: NumPy's floating-point error handling, the
+    warnings filters, the environment, the signal handlers, the working directory, the logging configuration of the library."""
+    import logging
+    import warnings
+    lg = logging.getLogger("fast_ticc")
+    # (the warnings filter list is not compared: importing scipy / sklearn sub-modules on first use legitimately adds entries)
+    return {"np.geterr()": dict(np.geterr()),
+            "os.environ (library switches)": {k: v for k, v in os.environ.items() if k.startswith(("CUPCAKE", "FAST_TICC", "NUMBA_DISABLE", "PYTHONOPTIMIZE"))}, "SIGALRM/SIGINT/SIGTERM handlers": [repr(signal.getsignal(sg)) for sg in (signal.SIGALRM, signal.SIGINT, signal.SIGTERM)],
+            "os.getcwd()": os.getcwd(), "fast_ticc logger": (lg.level, lg.propagate, len(lg.handlers), lg.disabled),
+            "multiprocessing.Pool": repr(multiprocessing.Pool)}
+
+
 def execute(case, t):
+    before = _process_state()
+    _execute(case, t)
+    after = _process_state()
+    for k in before:
+        if before[k] != after[k]:
+            raise Violation(f"after a failed call (and the clean call that followed it) the process is not as it was: {k} changed "
+                            f"from {str(before[k])[:160]} to {str(after[k])[:160]}")
+
+
+def _execute(case, t):
     cfg = {k: v for k, v in case.items() if k != "fault"}
     f = case["fault"]
     kind = f["kind"]
